@@ -35,6 +35,11 @@ def run(ctx):
             o["HarmonicNumber"] = r.choice([300, 400])
         if r.chance(0.5):
             o["VacuumGap"] = 0
+        if i % 4 == 1:
+            # no impedance, and a last step that is neither an output step nor a renormalisation step: the final record is written by its own
+            # code after the loop, with whatever profile the loop left behind
+            o.update(VacuumGap=0, rotations=1.0, RenormalizeCharge=r.choice([3, 7]), outstep=r.choice([6, 15]))
+            rn = o["RenormalizeCharge"]
         out = dict(i=i, opts=o, viol=[], checked=0, worst=0.0, drift=0.0)
         res = prog.run_inovesa("rel", o, d, os.path.join(d, "xdg"), timeout=900)
         out["cmd"] = " ".join(res["argv"])
@@ -96,6 +101,36 @@ def run(ctx):
                     if e > 1 and not any(k.startswith("C09:prog:moment") for k, _, _ in out["viol"]):
                         out["viol"].append(("C09:prog:moment:" + nm + (":bunch>0" if b else ""), "a bunch's reported mean/width in the results file is not the first/second moment of that bunch's own recorded profile",
                                             dict(options=o, cmd=out["cmd"], step=int(step), bunch=b, reported_mean=float(mr[rec, b]), mean_of_profile=m1, reported_width=float(sr[rec, b]), width_of_profile=sd)))
+        # ... and of the phase space stored in the same record (records that are not renormalised in that step): position and length are
+        # moments of *that* distribution, whenever the profile the program derives them from was last refreshed
+        trec = {int(st): k for k, st in enumerate(tsteps)}
+        zl = h["/BunchPosition/data"].astype(np.float64)
+        sl = h["/BunchLength/data"].astype(np.float64)
+        el = h["/EnergyAverage/data"].astype(np.float64)
+        esl = h["/EnergySpread/data"].astype(np.float64)
+        for step, rec in sorted(idx.items()):
+            if step % rn == 0 or step not in trec or not np.all(np.isfinite(psd[rec])):
+                continue
+            for b in range(psd.shape[1]):
+                for (nm, prof, ax, mrep, srep) in (("position", psd[rec, b] @ ws, z, zl, sl), ("energy", ws @ psd[rec, b], pe, el, esl)):
+                    s0 = prof.sum()
+                    if not (s0 > 0):
+                        continue
+                    m1 = float((prof * ax).sum() / s0)
+                    v = float((prof * (ax - m1) ** 2).sum() / s0)
+                    if not (v > 1e-6):
+                        continue
+                    sd = v ** 0.5
+                    out["moments_ps"] = out.get("moments_ps", 0) + 1
+                    if step == max(idx):
+                        out["final_ps"] = out.get("final_ps", 0) + 1
+                    e = max(abs(mrep[trec[step], b] - m1), abs(srep[trec[step], b] - sd)) / (2e-3 * sd + 1e-4)
+                    out["worst_mps"] = max(out.get("worst_mps", 0.0), e)
+                    if e > 1 and not any(k.startswith("C09:prog:moment_vs_phase_space") for k, _, _ in out["viol"]):
+                        out["viol"].append(("C09:prog:moment_vs_phase_space:" + nm + (":final_record" if step == max(idx) else ""),
+                                            "a bunch's reported mean/width is not the first/second moment of the phase space stored in the same record",
+                                            dict(options=o, cmd=out["cmd"], step=int(step), bunch=b, reported_mean=float(mrep[trec[step], b]), mean_of_phase_space=m1,
+                                                 reported_width=float(srep[trec[step], b]), width_of_phase_space=sd)))
         shutil.rmtree(d, ignore_errors=True)
         return out
 
@@ -110,6 +145,10 @@ def run(ctx):
             ctx.ev("program_runs_with_charge_drift_between_renormalisations")
         ctx.residual("prog.share_err_after_renormalisation", res["worst"], 2e-5)
         ctx.ev("program_bunch_moments_checked", res.get("moments", 0))
+        ctx.ev("program_bunch_moments_checked_against_the_stored_phase_space", res.get("moments_ps", 0))
+        ctx.ev("program_final_records_checked_against_the_stored_phase_space", res.get("final_ps", 0))
+        if "worst_mps" in res:
+            ctx.residual("prog.moment_vs_stored_phase_space_over_tol", res["worst_mps"], 1.0)
         if "worst_m" in res:
             ctx.residual("prog.moment_vs_own_profile_over_tol", res["worst_m"], 1.0)
         for key, what, det in res["viol"]:
@@ -117,4 +156,6 @@ def run(ctx):
     ctx.min_events["program_runs"] = max(3, n // 2)
     ctx.min_events["program_renormalised_records_checked"] = 20
     ctx.min_events["program_bunch_moments_checked"] = 100
+    ctx.min_events["program_bunch_moments_checked_against_the_stored_phase_space"] = 100
+    ctx.min_events["program_final_records_checked_against_the_stored_phase_space"] = 2
     ctx.min_events["program_runs_with_charge_drift_between_renormalisations"] = 1
